@@ -145,21 +145,22 @@ class PeekSlice(Terminal):
 
         pos = gen.new_temp("pos")
         gen.writeln(f"{pos} = state.pos")
+        gen.writeln(f"{matched_var} = True")
         peeked = gen.new_temp("peek")
         gen.writeln(f"for {peeked} in state.peek_slice({self.start}, {self.stop}):")
         with gen.block():
             gen.writeln(f"if state.input.startswith({peeked}, {pos}):")
             with gen.block():
                 gen.writeln(f"{pos} += len({peeked})")
-                gen.writeln(f"{matched_var} = True")
             gen.writeln("else:")
             with gen.block():
-                # TODO: test for failed PEEK slice
                 gen.writeln(f"{matched_var} = False")
                 gen.writeln(f"state.fail({peeked})")
                 gen.writeln("break")
 
-        gen.writeln(f"state.pos = {pos}")
+        gen.writeln(f"if {matched_var}:")
+        with gen.block():
+            gen.writeln(f"state.pos = {pos}")
 
         gen.writeln("# </PeekSlice>")
 
@@ -239,28 +240,24 @@ class PeekAll(Terminal):
         """Emit Python code for a PEEK_ALL expression."""
         gen.writeln("# <PeekAll>")
 
-        start_var = gen.new_temp("start")
-        tmp_pairs = gen.new_temp("pairs")
-
-        gen.writeln(f"{start_var} = state.pos")
-        gen.writeln(f"{tmp_pairs}: list[Pair] = []")
+        pos = gen.new_temp("pos")
+        gen.writeln(f"{pos} = state.pos")
         gen.writeln(f"{matched_var} = True")
-
-        gen.writeln("for i, literal in enumerate(reversed(state.user_stack)):")
+        peeked = gen.new_temp("peek")
+        gen.writeln(f"for {peeked} in reversed(state.user_stack):")
         with gen.block():
-            gen.writeln("if state.input.startswith(literal, state.pos):")
+            gen.writeln(f"if state.input.startswith({peeked}, {pos}):")
             with gen.block():
-                gen.writeln("state.pos += len(literal)")
-                gen.writeln(f"{matched_var} = True")
-                gen.writeln("if i < len(state.user_stack):")
-                with gen.block():
-                    gen.writeln(f"parse_trivia(state, {tmp_pairs})")
+                gen.writeln(f"{pos} += len({peeked})")
             gen.writeln("else:")
             with gen.block():
-                gen.writeln(f"state.pos = {start_var}")
                 gen.writeln(f"{matched_var} = False")
-                gen.writeln("state.fail(literal)")
+                gen.writeln(f"state.fail({peeked})")
                 gen.writeln("break")
+
+        gen.writeln(f"if {matched_var}:")
+        with gen.block():
+            gen.writeln(f"state.pos = {pos}")
 
         gen.writeln("# </PeekAll>")
 
@@ -343,22 +340,23 @@ class PopAll(Terminal):
 
         pos = gen.new_temp("pos")
         gen.writeln(f"{pos} = state.pos")
-
+        gen.writeln(f"{matched_var} = True")
         peeked = gen.new_temp("peek")
         gen.writeln(f"for {peeked} in reversed(state.user_stack):")
         with gen.block():
             gen.writeln(f"if state.input.startswith({peeked}, {pos}):")
             with gen.block():
                 gen.writeln(f"{pos} += len({peeked})")
-                gen.writeln(f"{matched_var} = True")
             gen.writeln("else:")
             with gen.block():
                 gen.writeln(f"{matched_var} = False")
                 gen.writeln(f"state.fail({peeked})")
                 gen.writeln("break")
 
-        gen.writeln("state.user_stack.clear()")
-        gen.writeln(f"state.pos = {pos}")
+        gen.writeln(f"if {matched_var}:")
+        with gen.block():
+            gen.writeln("state.user_stack.clear()")
+            gen.writeln(f"state.pos = {pos}")
 
         gen.writeln("# </PopAll>")
 
